@@ -148,6 +148,26 @@ def run_sweep(case):
             if nthread > 1 and N:
                 nt.append(('sweep', N, nthread))
     if case['lo'] == 0:
+        # more particles than 2^16 (and than any small-table shortcut): permutation, membership, starts
+        for dtype in (np.float32, np.float64):
+            N = 100003
+            pos = np.empty((N, 3), dtype=dtype)
+            pos[:, 0] = ((np.arange(N) * 7919) % N + 0.25) * (box / N)
+            pos[:, 1] = np.arange(N) + 0.5
+            pos[:, 2] = 7.0
+            w = (np.arange(N) % 1000 + 1).astype(dtype)
+            for nthread in (1, 7, 16):
+                ps, st, ws = tsc.partition_parallel(pos, 6, box, weights=w, coord=0, nthread=nthread, sort=(nthread == 7))
+                n += 1
+                ps, st, ws = np.asarray(ps), np.asarray(st), np.asarray(ws)
+                ok = st[0] == 0 and st[-1] == N and (np.diff(st) >= 0).all() and len(st) == 7
+                ident = np.round(ps[:, 1] - 0.5).astype(np.int64)
+                ok = ok and np.array_equal(np.sort(ident), np.arange(N)) and np.array_equal(ps[:, 0], pos[ident, 0]) and np.array_equal(ws, w[ident])
+                key = np.minimum((ps[:, 0].astype(np.float64) * 6 / box).astype(np.int64), 5)
+                exp_key = np.repeat(np.arange(6), np.diff(st)) if ok else None
+                if not ok or (np.abs(key - exp_key) > 0).sum() > 0:
+                    probs.append(dict(sig='bigN:partition', msg=f'N={N} {dtype.__name__} nthread={nthread}: not a stripe-ordered permutation with weights attached (starts {st.tolist()})'))
+            nt.append(('bigN', N, dtype.__name__))
         # very many stripes (more than any 16-bit key could number), particles spread over the whole box
         for npart in (300, 40000, 70001):
             for dtype in (np.float32, np.float64):
